@@ -13,6 +13,7 @@ import (
 	"github.com/99designs/gqlgen/graphql/executor"
 	"github.com/99designs/gqlgen/graphql/handler/extension"
 	"github.com/vektah/gqlparser/v2/ast"
+	"github.com/vektah/gqlparser/v2/gqlerror"
 	"pgregory.net/rapid"
 
 	"vh/kit"
@@ -157,6 +158,37 @@ type Case struct {
 	Specs     map[string]univ.CSpec `json:"specs,omitempty"`
 	Limit     int64                 `json:"limit"`
 	LimitRel  int                   `json:"limit_rel"` // limit = value + LimitRel when != 99
+	// Install: how the limit is configured: "" = extension.FixedComplexityLimit; "func" = a
+	// ComplexityLimit whose Func decides per request; "wrapped" = a user extension that embeds the
+	// ComplexityLimit and has an operation-parameter hook of its own; "among" = the fixed limit
+	// between two other extensions
+	Install string `json:"install,omitempty"`
+}
+
+// tenantLimit: a user extension built on the stock one, as a per-tenant limit would be.
+type tenantLimit struct {
+	*extension.ComplexityLimit
+}
+
+func (tenantLimit) MutateOperationParameters(ctx context.Context, raw *graphql.RawParams) *gqlerror.Error {
+	return nil
+}
+
+// paramsOnly / ctxOnly: bystander extensions.
+type paramsOnly struct{}
+
+func (paramsOnly) ExtensionName() string                   { return "ParamsOnly" }
+func (paramsOnly) Validate(graphql.ExecutableSchema) error { return nil }
+func (paramsOnly) MutateOperationParameters(ctx context.Context, raw *graphql.RawParams) *gqlerror.Error {
+	return nil
+}
+
+type ctxOnly struct{}
+
+func (ctxOnly) ExtensionName() string                   { return "CtxOnly" }
+func (ctxOnly) Validate(graphql.ExecutableSchema) error { return nil }
+func (ctxOnly) MutateOperationContext(ctx context.Context, rc *graphql.OperationContext) *gqlerror.Error {
+	return nil
 }
 
 func specKeys(u *univ.Universe) []string {
@@ -233,10 +265,33 @@ func check(c Case) *vfrun.Failure {
 		}
 		ex := executor.New(s.ES)
 		ext := extension.FixedComplexityLimit(int(limit))
-		if err := ext.Validate(s.ES); err != nil {
-			return vfrun.Failf("harness.ext", "%v", err)
+		lim := int(limit)
+		switch c.Install {
+		case "func":
+			ext = &extension.ComplexityLimit{Func: func(ctx context.Context, rc *graphql.OperationContext) int { return lim }}
+		case "wrapped":
+			ext = nil
 		}
-		ex.Use(ext)
+		switch {
+		case c.Install == "wrapped":
+			w := tenantLimit{&extension.ComplexityLimit{Func: func(ctx context.Context, rc *graphql.OperationContext) int { return lim }}}
+			if err := w.Validate(s.ES); err != nil {
+				return vfrun.Failf("harness.ext", "%v", err)
+			}
+			ex.Use(w)
+		case c.Install == "among":
+			ex.Use(paramsOnly{})
+			fallthrough
+		default:
+			if err := ext.Validate(s.ES); err != nil {
+				return vfrun.Failf("harness.ext", "%v", err)
+			}
+			ex.Use(ext)
+			if c.Install == "among" {
+				ex.Use(ctxOnly{})
+			}
+		}
+		vfrun.Label("limit-installed:" + c.Install)
 		e := univ.NewExec(plan.New(1))
 		s.U.SetExec(e)
 		ctx := graphql.StartOperationTrace(context.Background())
@@ -435,6 +490,7 @@ func gen(t *rapid.T) Case {
 		}
 	}
 	c.LimitRel = rapid.SampledFrom([]int{-2, -1, 0, 1, 2, 99, 99}).Draw(t, "limitrel")
+	c.Install = rapid.SampledFrom([]string{"", "", "func", "wrapped", "among"}).Draw(t, "install")
 	c.Limit = rapid.SampledFrom([]int64{0, 1, 5, 20, 100, 1000, univ.MaxInt, univ.MaxInt - 1}).Draw(t, "limit")
 	return c
 }
